@@ -2,7 +2,7 @@
    Statements only; proofs in Proofs/{LexerTotal,ParserTotal,CompileTotal,ApiFacts}.v. *)
 From Coq Require Import Floats.
 From JM Require Import Model.Base Model.Num Model.Value Model.Lexer Model.Parser Model.Api
-     Proofs.CompileTotal Proofs.ApiFacts Inst.FloatNum Run.Checker.
+     Proofs.CompileTotal Proofs.ApiFacts Proofs.LexView Proofs.LexSpell Proofs.LexText Proofs.LexAdj Proofs.LexExact Inst.FloatNum Run.Checker.
 
 Section C17.
 Context {NumO : NumOps}.
@@ -44,6 +44,31 @@ Theorem C17_must_compile :
     (forall n, compile e = Ok n -> must_compile e = Ok n).
 Proof. exact must_compile_panics_iff. Qed.
 
+(* a usable location for lexical errors: the error is reported where the reading of the
+   text stops.  The text before the remainder r reads as tokens (LexTo: the lexical
+   grammar of Proofs/LexExact.v), r is not empty, and the error tells why r cannot be
+   read on (stuck): its first character begins no token — the offset is that of the
+   character's last byte; or it opens a quoted identifier, raw string or literal that is
+   never closed — the offset is the end of the input; or it is a quoted identifier whose
+   body is not a JSON string — reported as a non-syntax error *)
+Theorem C17_lexical_error_is_reported_where_reading_stops :
+  forall e er, tokenize e = Err er ->
+    exists l r, LexTo e l r /\ r <> [] /\ stuck (zlen e - zlen r) r er.
+Proof. exact lex_error_located. Qed.
+
+Theorem C17_lexical_error_offset :
+  forall e o, tokenize e = Err (ESyntax o) ->
+    exists pre r, e = pre ++ r /\ r <> [] /\
+      ((exists k, o = zlen pre + k - 1 /\ 1 <= k <= zlen r /\ snd (fst (stepS r)) = k) \/ o = zlen e).
+Proof. exact lex_error_offset. Qed.
+
+(* ... and for the parser's errors: the offset is the position of one of the tokens the
+   lexer produced (the end-of-input token stands at the end of the text) *)
+Theorem C17_syntax_error_is_lexical_or_points_at_a_token :
+  forall (e : bytes) o, Api.compile e = Err (ESyntax o) ->
+    tokenize e = Err (ESyntax o) \/ exists ts t, tokenize e = Ok ts /\ In t ts /\ o = tpos t.
+Proof. exact compile_error_located. Qed.
+
 End C17.
 
 Print Assumptions C17_compile_result.
@@ -51,6 +76,9 @@ Print Assumptions C17_exactly_one.
 Print Assumptions C17_offset_in_range.
 Print Assumptions C17_highlight.
 Print Assumptions C17_must_compile.
+Print Assumptions C17_lexical_error_is_reported_where_reading_stops.
+Print Assumptions C17_lexical_error_offset.
+Print Assumptions C17_syntax_error_is_lexical_or_points_at_a_token.
 
 (* "a[" : the error is at the end of the expression; "a\x80": at the unknown character *)
 Example C17_example :
